@@ -226,7 +226,7 @@ pub struct ProcResult<T> {
 }
 
 /// CPU time a simulated process may consume (operations take milliseconds)
-pub const WATCHDOG: Duration = Duration::from_secs(45);
+pub const WATCHDOG: Duration = Duration::from_secs(60);
 /// wall-clock backstop for a process that is blocked without consuming CPU
 pub const WATCHDOG_WALL: Duration = Duration::from_secs(900);
 
